@@ -35,7 +35,9 @@ class Assembled(Part):
         k = 1 if tier == 'quick' else 2
         return (f'{len(CASES)} stock systems x status in (all on, every one of the first 6 lines / 3 loads / 3 static generators '
                 f'off{"" if k == 1 else ", pairs of lines off"}, leaf-bus isolation) x ipadd in (1, 0) x phases (power flow: flat start, '
-                f'solution, perturbed; dynamics: initial point, perturbed)')
+                f'solution, perturbed; dynamics: initial point, perturbed, and - on the all-on systems - once more after every '
+                f'continuous parameter read by a Jacobian function of a dynamic model has been changed in place and the first device '
+                f'of every dynamic model switched off)')
 
     def cases(self, tier):
         out = []
@@ -124,6 +126,13 @@ class Assembled(Part):
                     xy = np.concatenate([ss.dae.x, ss.dae.y])
                     tds._fg_wrapper(xy + 1e-3 * rng.uniform(-1, 1, len(xy)))
                     self.point(ss, tds, tm, 'tds:perturbed', bad, stats)
+                    if case['status'] is None:
+                        # parameters and status changed IN PLACE after the matrices have been evaluated (what Model.set / alter,
+                        # Toggle and the connectivity manager do): the next update must see the new values everywhere
+                        changed = self.inplace_change(ss)
+                        tds._fg_wrapper(xy + 1e-3 * rng.uniform(-1, 1, len(xy)))
+                        self.point(ss, tds, tm, 'tds:after_inplace_change', bad, stats)
+                        stats['changed_params'] = changed
         except Exception as e:
             import traceback
             tb = traceback.extract_tb(e.__traceback__)
@@ -132,6 +141,33 @@ class Assembled(Part):
         out.transitions = stats['points']
         out.nontrivial = stats['entries'] > 0
         return out
+
+    @staticmethod
+    def inplace_change(ss):
+        """Scale every continuous parameter that a Jacobian function of a dynamic model reads, and switch the first device
+        of every dynamic model off through the public setter. Returns the number of parameters changed."""
+        count = 0
+        for mdl in ss.exist.tds.values():
+            if mdl.n == 0 or mdl.flags.pflow:
+                continue
+            jargs = set()
+            for args in mdl.calls.j_args.values():
+                jargs.update(args)
+            selectors = set()
+            for d in mdl.discrete.values():
+                if type(d).__name__ in ('Switcher', 'Selector') and hasattr(d, 'u'):
+                    selectors.add(getattr(d.u, 'name', None))
+            for name, p in mdl.num_params.items():
+                if name == 'u' or name in selectors or name not in jargs:
+                    continue
+                v = np.asarray(p.v, dtype=float)
+                if v.shape != (mdl.n,):
+                    continue
+                p.v[:] = v * 1.07 + 0.013
+                count += 1
+            if 'u' in mdl.num_params:
+                mdl.set('u', mdl.idx.v[0], 'v', 0)
+        return count
 
     def point(self, ss, routine, models, label, bad, stats):
         """Compare the assembled Jacobian at the current point with finite differences of the assembled residual."""
